@@ -4,7 +4,7 @@ from __future__ import annotations
 
 import ast
 
-from .flow import must_pass, self_stores
+from .flow import must_pass, self_stores, self_reads
 from .repo import AnalysisError, dotted, norm_text, walk_no_nested
 
 NOTIFIERS = {"_InitMatrix", "_Notify", "Need_Update", "clear_cached_computed_values"}
@@ -159,3 +159,270 @@ def approx_guard_rule(ctx, rid, module_names):
                 r.fail(f.qualname, f"approx-guard:{(dotted(n.func) or '').split('.')[-1]}", f.file, n.lineno, f.name, f"`{norm_text(n)[:80]}` decides a branch / a returned value: data within the tolerance but not equal take the other computation (exactness to round-off is lost; a small change of the data is ignored)")
             else:
                 r.ok()
+
+
+# ---------------------------------------------------------------------------
+# hand-rolled memos: guarded compute-and-store into an attribute of self
+# ---------------------------------------------------------------------------
+
+
+def _self_attrs(node, ci, whole_only=False):
+    """mangled names of the self attributes read in `node`.  whole_only: an attribute whose read is immediately narrowed
+    (self.a[0], self.a.b) does not count -- a key built from a part of an attribute does not cover the attribute."""
+    out = set()
+    parents = {}
+    for p in ast.walk(node):
+        for c in ast.iter_child_nodes(p):
+            parents[c] = p
+    for n in ast.walk(node):
+        if isinstance(n, ast.Attribute) and isinstance(n.value, ast.Name) and n.value.id == "self" and isinstance(n.ctx, ast.Load):
+            if whole_only:
+                p = parents.get(n)
+                if isinstance(p, ast.Subscript) and p.value is n:
+                    continue
+                if isinstance(p, ast.Attribute) and p.value is n:
+                    continue
+                if isinstance(p, ast.Call) and p.func is n:
+                    pp = parents.get(p)
+                    if isinstance(pp, ast.Subscript) and pp.value is p:
+                        continue
+            out.add(ci.mangle(n.attr))
+    return out
+
+
+def memo_rule(ctx, rid, cg=None, scope=None, min_instances=3):
+    """A hand-rolled memo is a guarded compute-and-store:  `if <test on self.A>: self.A[...] = <expr>`  (lazy attribute,
+    dictionary keyed by some expression, last-value slot).  One-step premise of the history property: every attribute of
+    self that <expr> is computed from is (i) part of the key the guard tests, or (ii) never stored after construction, or
+    (iii) every method that stores it also stores / resets A.  A violation is reported with its witness: the method
+    that changes an input of the memo without resetting it (compute, call that method, read again: stale)."""
+    from .flow import CallGraph, Locals
+
+    repo = ctx.repo
+    cg = cg or CallGraph(repo)
+    r = ctx.rule(rid, "hand-rolled memos (guarded compute-and-store into an attribute): every input of the stored value is in the tested key, immutable after construction, or reset by each method that changes it", min_instances=min_instances)
+    store_index = {}  # class -> {attr: [FuncInfo storing it outside __init__]}
+
+    def storing_methods(ci, attr):
+        key = ci.qualname
+        if key not in store_index:
+            idx = {}
+            classes = {c for c in ci.mro if not c.qualname.startswith("builtins")} | set(repo.subclasses(ci))
+            for c in classes:
+                for g in list(c.methods.values()) + list(c.setters.values()):
+                    if g.cls is not c:
+                        continue
+                    for a, n, kind in self_stores(g):
+                        idx.setdefault(a, []).append((g, n, kind))
+            store_index[key] = idx
+        return store_index[key].get(attr, [])
+
+    def is_pure(g):
+        """an accessor: stores nothing through self (its result is a function of what it reads)"""
+        return not self_stores(g)
+
+    def local_closure(fnode, exprs):
+        """the expressions plus the defining expressions of every local they mention (all definitions of a local
+        that is assigned several times, the iterables of loop variables)"""
+        defs = {}
+        for n in ast.walk(fnode):
+            if isinstance(n, ast.Assign):
+                for t in n.targets:
+                    for x in ast.walk(t):
+                        if isinstance(x, ast.Name) and isinstance(x.ctx, ast.Store):
+                            defs.setdefault(x.id, []).append(n.value)
+            elif isinstance(n, (ast.AnnAssign, ast.AugAssign)) and isinstance(n.target, ast.Name) and n.value is not None:
+                defs.setdefault(n.target.id, []).append(n.value)
+            elif isinstance(n, (ast.For, ast.comprehension)):
+                for x in ast.walk(n.target):
+                    if isinstance(x, ast.Name) and isinstance(x.ctx, ast.Store):
+                        defs.setdefault(x.id, []).append(n.iter)
+        out, seen, todo = [], set(), list(exprs)
+        while todo:
+            e = todo.pop()
+            out.append(e)
+            for x in ast.walk(e):
+                if isinstance(x, ast.Name) and isinstance(x.ctx, ast.Load) and x.id in defs and x.id not in seen:
+                    seen.add(x.id)
+                    todo.extend(defs[x.id])
+        return out
+
+    def transitive_reads(ci, exprs, f):
+        """self attributes the expressions depend on: direct reads plus what the PURE self-methods they call read
+        (a method that stores state is an input of its own, governed by its own protocol)"""
+        reads = set()
+        todo = []
+        for e in local_closure(f.node, exprs):
+            reads |= _self_attrs(e, ci)
+            for n in ast.walk(e):
+                if isinstance(n, ast.Attribute) and isinstance(n.value, ast.Name) and n.value.id == "self":
+                    todo.extend(g for g in cg.resolve_self_attr(f.cls, n.attr, include_overrides=False) if is_pure(g))
+        seen = set()
+        while todo:
+            g = todo.pop()
+            if id(g) in seen or g.cls is None:
+                continue
+            seen.add(id(g))
+            # value flow only: what the returned value is computed from.  Calls whose result is discarded (self._Update(),
+            # self.Need_Update(False), notifications) act through state; the stores they make are mutators checked on
+            # their own.
+            value_nodes = []
+            for st in ast.walk(g.node):
+                if isinstance(st, ast.Expr):
+                    continue
+                if isinstance(st, (ast.Return, ast.Assign, ast.AnnAssign, ast.AugAssign)) and getattr(st, "value", None) is not None:
+                    value_nodes.append(st.value)
+                elif isinstance(st, (ast.If, ast.While)):
+                    # a branch matters for the value when it returns / binds something; `if dirty: self._Update()` does not
+                    if any(isinstance(x, (ast.Return, ast.Assign, ast.AnnAssign, ast.AugAssign)) for b in (st.body, st.orelse) for y in b for x in ast.walk(y)):
+                        value_nodes.append(st.test)
+            for vn in value_nodes:
+                reads |= _self_attrs(vn, g.cls)
+                for n in ast.walk(vn):
+                    if isinstance(n, ast.Attribute) and isinstance(n.value, ast.Name) and n.value.id == "self":
+                        todo.extend(h for h in cg.resolve_self_attr(g.cls, n.attr, include_overrides=False) if is_pure(h))
+        return reads
+
+    def resets(g, attr, depth=3, _seen=None):
+        """does g (or a self-method it calls) store the whole attribute `attr` / clear it?"""
+        _seen = _seen or set()
+        if id(g) in _seen or depth < 0:
+            return False
+        _seen.add(id(g))
+        for a, n, kind in self_stores(g):
+            if a == attr and (kind in ("assign", "delete") or kind.startswith("mutating-call:clear")):
+                return True
+        for n in ast.walk(g.node):
+            if isinstance(n, ast.Call) and isinstance(n.func, ast.Attribute) and isinstance(n.func.value, ast.Name) and n.func.value.id == "self" and g.cls is not None:
+                for h in cg.resolve_self_attr(g.cls, n.func.attr, include_overrides=False):
+                    if resets(h, attr, depth - 1, _seen):
+                        return True
+            if isinstance(n, ast.Assign) and g.cls is not None:
+                for t in n.targets:
+                    if isinstance(t, ast.Attribute) and isinstance(t.value, ast.Name) and t.value.id == "self":
+                        s = repo.lookup_setter(g.cls, t.attr)
+                        if s is not None and resets(s, attr, depth - 1, _seen):
+                            return True
+        return False
+
+    for f in repo.all_functions():
+        ci = f.cls
+        if ci is None or (scope is not None and not scope(f)):
+            continue
+        L = None
+        for n in ast.walk(f.node):
+            if not isinstance(n, ast.If):
+                continue
+            tested = _self_attrs(n.test, ci)
+            if not tested:
+                continue
+            cand = [st for blk in (n.body, n.orelse) for st in blk]
+            # `if <test on self.A>: return <self.A...>` with the store of self.A elsewhere in the function
+            if any(isinstance(x, ast.Return) and x.value is not None and (_self_attrs(x.value, ci) & tested) for b in (n.body,) for y in b for x in ast.walk(y)):
+                cand += [st for st in ast.walk(f.node) if isinstance(st, (ast.Assign, ast.AnnAssign)) and st not in cand]
+            for blk in (cand,):
+                for st in blk:
+                    if not isinstance(st, (ast.Assign, ast.AnnAssign)):
+                        continue
+                    targets = st.targets if isinstance(st, ast.Assign) else [st.target]
+                    for t in targets:
+                        base, keyexpr = t, None
+                        if isinstance(t, ast.Subscript):
+                            base, keyexpr = t.value, t.slice
+                        if not (isinstance(base, ast.Attribute) and isinstance(base.value, ast.Name) and base.value.id == "self"):
+                            continue
+                        A = ci.mangle(base.attr)
+                        if A not in tested or st.value is None:
+                            continue
+                        if L is None:
+                            L = Locals(f.node)
+                        rhs = L.expand(st.value)
+                        if not any(isinstance(x, (ast.Call, ast.Attribute, ast.BinOp, ast.Subscript)) for x in ast.walk(rhs)):
+                            continue  # a flag / constant: nothing memoised
+                        if norm_text(ast.fix_missing_locations(rhs)) in norm_text(ast.fix_missing_locations(L.expand(n.test))):
+                            continue  # `if x != self.a: self.a = x`: the stored value is the tested key itself
+                        conj = isinstance(n.test, ast.BoolOp) and isinstance(n.test.op, ast.And)
+                        guard_attrs = sorted(tested) if not conj else [A]
+                        # the key: everything in the guard and in the subscript except the memo attribute itself
+                        key_exprs = [L.expand(n.test)] + ([L.expand(keyexpr)] if keyexpr is not None else [])
+                        D = transitive_reads(ci, [rhs], f) - {A}
+                        K = set()
+                        for ke in key_exprs:
+                            for e in local_closure(f.node, [ke]):
+                                whole = _self_attrs(e, ci, whole_only=True)
+                                K |= whole
+                                # a property read un-narrowed covers what its pure getter reads
+                                for a in whole:
+                                    for g in cg.resolve_self_attr(f.cls, a, include_overrides=False):
+                                        if g.is_property() and is_pure(g):
+                                            K |= transitive_reads(g.cls, [x.value for x in ast.walk(g.node) if isinstance(x, ast.Return) and x.value is not None], g)
+                        r.instance(fn=f.qualname)
+                        witness = None
+                        for d in sorted(D - K):
+                            for g, node, kind in storing_methods(ci, d):
+                                if g.name == "__init__" or g is f:
+                                    continue
+                                # a lazy initialisation of d itself is not a mutator
+                                if any(isinstance(p, ast.If) and node in ast.walk(p) and d in _self_attrs(p.test, g.cls) for p in ast.walk(g.node)):
+                                    continue
+                                if not any(resets(g, ga) for ga in guard_attrs):
+                                    witness = (d, g, node)
+                                    break
+                            if witness:
+                                break
+                        if witness:
+                            d, g, node = witness
+                            r.fail(f.qualname, f"stale-memo:{A.split('__')[-1]}<-{d.split('__')[-1]}", f.file, st.lineno, f"{ci.name}.{f.name}",
+                                   f"`self.{base.attr}` memoises a value computed from self.{d.split('__')[-1]} which is not part of the tested key; {g.cls.name}.{g.name} (line {node.lineno}) stores self.{d.split('__')[-1]} without resetting the memo: after that call the memo returns the value of the old {d.split('__')[-1]}")
+                        else:
+                            r.ok(f"{ci.name}.{f.name}: memo self.{base.attr} covered (inputs {sorted(x.split('__')[-1] for x in D)[:6]})")
+
+
+def cached_param_rule(ctx, rid, cg=None, min_instances=20):
+    """The memo of @cache_computed_values / lru_cache is keyed by the argument VALUES (hash / equality).  An argument that
+    is used as an object -- one of its attributes is read, or a method is called on it, in the body or in a self-method
+    it is handed to -- is keyed by identity while the memoised value depends on its state: after the object changes
+    (beam section axes, material parameter ...) the memo returns the value of its old state."""
+    from .flow import CallGraph
+
+    repo = ctx.repo
+    cg = cg or CallGraph(repo)
+    r = ctx.rule(rid, "memoised methods take value arguments only: no attribute of an argument is read (the key is the argument's identity, the value would depend on its mutable state)", min_instances=min_instances)
+
+    def object_uses(f, p, depth=2, _seen=None):
+        _seen = _seen or set()
+        if (id(f), p) in _seen or depth < 0:
+            return None
+        _seen.add((id(f), p))
+        for n in ast.walk(f.node):
+            if isinstance(n, ast.Attribute) and isinstance(n.value, ast.Name) and n.value.id == p and isinstance(n.ctx, ast.Load):
+                return (f, n)
+        for n in ast.walk(f.node):
+            if isinstance(n, ast.Call) and isinstance(n.func, ast.Attribute) and isinstance(n.func.value, ast.Name) and n.func.value.id == "self" and f.cls is not None:
+                for k, a in enumerate(n.args):
+                    if isinstance(a, ast.Name) and a.id == p:
+                        for g in cg.resolve_self_attr(f.cls, n.func.attr, include_overrides=False):
+                            ps = [x for x in g.params() if x not in ("self", "cls")]
+                            if k < len(ps):
+                                u = object_uses(g, ps[k], depth - 1, _seen)
+                                if u is not None:
+                                    return u
+        return None
+
+    for f in repo.all_functions():
+        if not (f.is_cached() or any(d.split(".")[-1] in ("lru_cache", "cache") for d in f.decorators)):
+            continue
+        r.instance(fn=f.qualname)
+        bad = None
+        for p in f.params():
+            if p in ("self", "cls"):
+                continue
+            u = object_uses(f, p)
+            if u is not None:
+                bad = (p, u)
+                break
+        if bad:
+            p, (g, n) = bad
+            r.fail(f.qualname, f"object-argument:{p}", f.file, f.lineno, f"{f.cls.name + '.' if f.cls else ''}{f.name}", f"memoised per argument `{p}` (identity) but `{norm_text(n)}` is read from it{' in ' + g.name if g is not f else ''}: after `{p}` changes state the memo returns the value computed from its old state")
+        else:
+            r.ok()
